@@ -136,6 +136,12 @@ class C06(Prop):
                 sid += 1
                 yield {"k": "m1", "rows": ins_to_state(m), "r": r, "obs": lists, "seed": self.seed * 7919 + sid * 64}
 
+        # a few of the same calls in an interpreter started with -O (assert statements stripped)
+        opt = []
+        for j in range(8):
+            m = rng.choice(self.maps[2])
+            opt.append({"k": "m1", "rows": ins_to_state(m), "r": j % 3, "obs": [[h] for h in enum.herm(2)[j::8]] + [list(rng.choice(self.cpairs[2]))], "seed": self.seed + 900 + j})
+        yield {"k": "optpass", "scns": opt, "pkg": "py"}
         # registers across the 64-bit word boundary: an entangled block on the last qubits of a 66 / 70-qubit register that
         # is maximally mixed elsewhere; observables on the high qubits (logical operators of the padding, elements and
         # non-elements of the block's group, dependent lists)
@@ -160,6 +166,9 @@ class C06(Prop):
             yield {"k": "m1", "rows": rows, "r": r, "obs": singles + lists, "seed": self.seed * 7919 + sid * 64, "pkg": "py"}
 
     def execute(self, scn, be):
+        if scn["k"] == "optpass":
+            from .. import optrun
+            return optrun.run(self.id, be.name, scn["scns"], self.wd)
         rec = {"op": "measure1", "pre": {"rows": scn["rows"], "r": scn["r"]}}
         try:
             if scn["k"] == "m1":
